@@ -24,6 +24,8 @@
 //!     B melds A + refresh; A commits the merge successor m; B melds A + refresh.  A third replica T melds A (holds all
 //!     files): for every snapshot taken on A or B (c0, a1, a2, b1, b2, the two-element head set after each meld, m)
 //!     T.reload_until(heads) shows that snapshot; finally T.reload() shows A's latest.  Thorough repeats this on A and B.
+//!     Variant uneven: B's branch has one block, A's two (parents of the merge at different depths); two-origins: B
+//!     starts independently (a second parent-less block), the histories are joined by the meld.
 //!     Variants deep-*: two more commits c1, c2 BEFORE the fork and two more (m2, m3) after the merge, so that the walk
 //!     back from a merge meets the fork block twice while older blocks are still to be applied.
 //! arrayconf:<variant>@<target>   A and B edit the same flattened arrays concurrently (move: A moves b, B moves a from
@@ -283,7 +285,7 @@ fn linear_script(sc: &[Vec<usize>], all_pairs: bool) -> Result<Vec<Vec<String>>,
 
 // ------------------------------------------------------------------------------------------ branching
 
-const VARIANTS: [&str; 5] = ["disjoint", "conflict", "deep-disjoint", "deep-conflict", "conflict-delete"];
+const VARIANTS: [&str; 8] = ["disjoint", "conflict", "deep-disjoint", "deep-conflict", "uneven", "two-origins", "deep-uneven", "conflict-delete"];
 
 fn sync(dst: &mut Melda, src: &Melda, what: &str) -> Result<(), String> {
     orch::ge(&format!("{}: meld", what), || dst.meld(src))?;
@@ -315,8 +317,19 @@ fn build_branch(variant: &str) -> Result<(Vec<Snapshot>, Melda, Melda, Melda), S
             snaps.push(snapshot(&a, &format!("A:c{}", n), &mut ka)?);
         }
     }
-    sync(&mut b, &a, "B takes c0")?;
-    snaps.push(snapshot(&b, "B:c0", &mut kb)?);
+    let uneven = variant == "uneven";
+    if variant == "two-origins" {
+        // B starts independently: a second parent-less block, its own root object and objects
+        let mut q = Map::new();
+        q.insert("title".into(), json!("started elsewhere"));
+        q.insert(format!("qa{}", F), json!({"_id": "q1", "v": 1}));
+        orch::ge("B.update(own origin)", || b.update(q))?;
+        commit_one(&b, "b0", None)?;
+        snaps.push(snapshot(&b, "B:b0", &mut kb)?);
+    } else {
+        sync(&mut b, &a, "B takes c0")?;
+        snaps.push(snapshot(&b, "B:c0", &mut kb)?);
+    }
     // A: a1, a2 (array and o1)
     for (n, ops) in [(1, [0usize, 2usize]), (2, [4, 6])] {
         for op in ops {
@@ -329,8 +342,11 @@ fn build_branch(variant: &str) -> Result<(Vec<Snapshot>, Melda, Melda, Melda), S
     // B: b1, b2 (plain objects only)
     orch::ge("B.update_object(o2)", || b.update_object("o2", orch::obj(json!({"v": 21, "s": "x}y"}))))?;
     orch::ge("B.create_object(o3)", || b.create_object("o3", orch::obj(json!({"k": 1}))))?;
-    commit_one(&b, "b1", Some(orch::obj(json!({"who": "B"}))))?;
-    snaps.push(snapshot(&b, "B:b1", &mut kb)?);
+    if !uneven {
+        // (uneven: B's branch has ONE block, A's has two — the merge's parents are at different depths)
+        commit_one(&b, "b1", Some(orch::obj(json!({"who": "B"}))))?;
+        snaps.push(snapshot(&b, "B:b1", &mut kb)?);
+    }
     orch::ge("B.update_object(o2)", || b.update_object("o2", orch::obj(json!({"v": 22, "s": "x}y"}))))?;
     match variant {
         "conflict" => {
@@ -709,7 +725,7 @@ fn work(thorough: bool, seed: u64, out: &Out) {
             linear_cases(idx, 9, seed, false, out);
         }
     }
-    for v in VARIANTS.iter().take(if thorough { 5 } else { 4 }) {
+    for v in VARIANTS.iter().take(if thorough { 8 } else { 6 }) {
         branch_cases(v, thorough, out);
     }
     for v in ARRAY_VARIANTS {
@@ -724,9 +740,9 @@ pub fn run(thorough: bool, seed: u64) -> Report {
     let mut rep = Report::new(
         "time_travel",
         if thorough {
-            "linear: 40 scripts (s0 fixed, 39 seeded; two mutations per step out of update o1, title, append / remove first / reverse / change an item of the single-writer flattened array, delete or re-create o2, delete or re-create o1) of k = 7 commits with every there-and-back pair (i, j, i), plus 10 scripts of k = 9; per step: authoring replica (reload_until twice, reload), fresh replica on the same adapter, Melda::new_until; branch: variants disjoint / conflict / deep-disjoint / deep-conflict / conflict-delete (deep: two older commits below the fork, two blocks after the merge), every snapshot checked on a third replica holding all files and on A and B; arrayconf: variants move / append / mixed on one long-lived replica, before and after a commit made during the array conflict; 4 guard cases"
+            "linear: 40 scripts (s0 fixed, 39 seeded; two mutations per step out of update o1, title, append / remove first / reverse / change an item of the single-writer flattened array, delete or re-create o2, delete or re-create o1) of k = 7 commits with every there-and-back pair (i, j, i), plus 10 scripts of k = 9; per step: authoring replica (reload_until twice, reload), fresh replica on the same adapter, Melda::new_until; branch: variants disjoint / conflict / deep-disjoint / deep-conflict / uneven / two-origins / deep-uneven / conflict-delete (deep: two older commits below the fork, two blocks after the merge), every snapshot checked on a third replica holding all files and on A and B; arrayconf: variants move / append / mixed on one long-lived replica, before and after a commit made during the array conflict; 4 guard cases"
         } else {
-            "linear: 6 scripts (s0 fixed, 5 seeded; two mutations per step out of update o1, title, append / remove first / reverse / change an item of the single-writer flattened array, delete or re-create o2, delete or re-create o1) of k = 5 commits, there-and-back (i, k+1-i, i); per step: authoring replica (reload_until twice, reload), fresh replica on the same adapter, Melda::new_until; branch: variants disjoint / conflict / deep-disjoint / deep-conflict (deep: two older commits below the fork, two blocks after the merge), every snapshot (c0.., a1, a2, b1, b2, the two-element head sets after each meld, m..) checked on a third replica holding all files; arrayconf: variants move / append / mixed on one long-lived replica, before and after a commit made during the array conflict; 4 guard cases"
+            "linear: 6 scripts (s0 fixed, 5 seeded; two mutations per step out of update o1, title, append / remove first / reverse / change an item of the single-writer flattened array, delete or re-create o2, delete or re-create o1) of k = 5 commits, there-and-back (i, k+1-i, i); per step: authoring replica (reload_until twice, reload), fresh replica on the same adapter, Melda::new_until; branch: variants disjoint / conflict / deep-disjoint / deep-conflict / uneven / two-origins (deep: two older commits below the fork, two blocks after the merge), every snapshot (c0.., a1, a2, b1, b2, the two-element head sets after each meld, m..) checked on a third replica holding all files; arrayconf: variants move / append / mixed on one long-lived replica, before and after a commit made during the array conflict; 4 guard cases"
         },
         "enumeration of scripts x steps, branch variants x snapshots, guards; one case per script and step / variant and snapshot / guard, each combining all its checks; every case non-trivial; guarded, 10 s watchdog",
     );
